@@ -144,10 +144,15 @@ def run_impl(c):
         r = call_impl(_itb)
     elif op == 'nks':
         nb = np.array(c['nb'])
+        rule_arg = _np_rule(c)
+        if c.get('rule_bits'):
+            bits = [int(x) for x in bin(c['rule'])[2:].zfill(2 ** len(c['nb']))]
+            rule_arg = {'list': lambda: bits, 'ndarray': lambda: np.array(bits), 'ndarray_uint8': lambda: np.array(bits, dtype=np.uint8),
+                        'ndarray_bool': lambda: np.array(bits, dtype=bool)}[c['rule_bits']]()
         if c['cls']:
-            r = call_impl(lambda: int(cpl.NKSRule(_np_rule(c))(nb, 0, 1)))
+            r = call_impl(lambda: int(cpl.NKSRule(rule_arg)(nb, 0, 1)))
         else:
-            r = call_impl(lambda: int(cpl.nks_rule(nb, _np_rule(c))))
+            r = call_impl(lambda: int(cpl.nks_rule(nb, rule_arg)))
     elif op == 'class_reuse':
         L = len(c['calls'][0]['nb'])
         scheme = 'nks' if c['scheme'] == 'nks' else None
@@ -180,6 +185,10 @@ def to_coq(c, obs):
         return '(CBitsToInt %s %s)' % (czlist(c['bits']), cres(obs, cz))
     if op == 'int_to_bits':
         return '(CIntToBits %s %s %s)' % (cN(c['num']), cnat(c['d']), cres(obs, czlist))
+    if op == 'nks' and c.get('rule_bits'):
+        L = len(c['nb'])
+        return '(CBinaryRule false %s (RBits %s) SNks None %s)' % (
+            czlist(c['nb']), czlist([int(x) for x in bin(c['rule'])[2:].zfill(2 ** L)]), cres(obs, cz))
     if op == 'nks':
         return '(CNks %s %s %s %s)' % (cbool(c['cls']), czlist(c['nb']), cN(c['rule']), cres(obs, cz))
     if op == 'class_reuse':
@@ -272,6 +281,17 @@ def _round5_cases(rng, tier):
                 yield {'kind': 'radius0/nks', 'op': 'nks', 'nb': [b], 'rule': R, 'cls': cl}
 
 
+def _round6_cases(rng, tier):
+    """Round 6: nks_rule / NKSRule handed the rule as a BIT ARRAY (list or ndarray): nks_rule forwards to
+    binary_rule(scheme='nks'), so every rule form binary_rule accepts is accepted here too."""
+    for i in range(120 if tier == 'quick' else 1200):
+        L = rng.choice([1, 3, 3, 5, 7])
+        nb = [rng.randint(0, 1) for _ in range(L)]
+        R = rng.getrandbits(2 ** L)
+        yield {'kind': 'nks_bits/%s' % ('class' if i % 2 else 'function'), 'op': 'nks', 'nb': nb, 'rule': R, 'cls': bool(i % 2),
+               'rule_bits': rng.choice(['list', 'ndarray', 'ndarray_uint8', 'ndarray_bool'])}
+
+
 _generate_r4 = generate
 
 
@@ -279,6 +299,8 @@ def generate(rng, tier):
     for c in _generate_r4(rng, tier):
         yield c
     for c in _round5_cases(rng, tier):
+        yield c
+    for c in _round6_cases(rng, tier):
         yield c
 
 
